@@ -211,6 +211,44 @@ theorem deviation_equivariance (x : Matrix n k K) (hx : x = I.T * x + I.Kc) (N t
       = I.w0 t + (I.H t * I.Sw t)ᵀ * (I.Fi t * I.pe t - (I.T * I.G t)ᵀ * I.r N (t + 1))
     rw [dev_pe I x hx, dev_G I x hx, dev_r I x hx N _ (t + 1) rfl]
 
+/-! ### re-simulation of the measurement block, with the mode flag (`simulators._simulate_measurement(deviation=…)`)
+
+The simulator computes `y = Z ξ + H w + D` in level mode and `y = Z ξ + H w` in deviation mode, always with the matrices of the
+SAME model object (`I`).  Re-simulating the smoother output with the flag of the filter run reproduces the data of that run; with
+the wrong flag the result is off by exactly the intercept `D` (the seeded change C08-r4-1). -/
+
+/-- the measurement block of the simulator with its mode flag -/
+def simMeas (dev : Bool) (t : ℕ) (a : Matrix n k K) (wv : Matrix w k K) : Matrix (p t) k K :=
+  I.Z t * a + I.H t * wv + (if dev then 0 else I.D t)
+
+theorem deviation_regular (hI : I.Regular) (x : Matrix n k K) : (deviation I x).Regular :=
+  ⟨hI.QInit_symm, hI.Su_symm, hI.Sw_symm, hI.Fi_symm⟩
+
+/-- level mode: the re-simulated observables are the data, in every period of the sample -/
+theorem resimulate_measurement_level (hI : I.Regular) {N t : ℕ} (ht : t < N) (hF : I.F t * I.Fi t = 1) :
+    simMeas I false t (I.a2 N t) (I.w2 N t) = I.y t := by
+  have h := measurement_identity I hI ht hF
+  simpa [simMeas] using h
+
+/-- deviation mode: the deviation-mode smoother output re-simulated with `deviation=True` (no intercept, matrices of the level
+model object) reproduces the deviation data `y − ȳ` -/
+theorem resimulate_measurement_deviation (hI : I.Regular) (x : Matrix n k K) (hx : x = I.T * x + I.Kc) {N t : ℕ} (ht : t < N)
+    (hF : I.F t * I.Fi t = 1) :
+    simMeas I true t ((deviation I x).a2 N t) ((deviation I x).w2 N t) = I.y t - (I.Z t * x + I.D t) := by
+  have hF' : (deviation I x).F t * (deviation I x).Fi t = 1 := by
+    rw [(deviation_equivariance I x hx N t).2.2.1]; exact hF
+  have h := measurement_identity (deviation I x) (deviation_regular I hI x) ht hF'
+  have h' : I.Z t * (deviation I x).a2 N t + I.H t * (deviation I x).w2 N t + 0 = I.y t - (I.Z t * x + I.D t) := h
+  simpa [simMeas] using h'
+
+/-- with the wrong flag (level intercept on deviation-mode output) the re-simulation is off by exactly `D` -/
+theorem resimulate_measurement_wrong_flag (hI : I.Regular) (x : Matrix n k K) (hx : x = I.T * x + I.Kc) {N t : ℕ} (ht : t < N)
+    (hF : I.F t * I.Fi t = 1) :
+    simMeas I false t ((deviation I x).a2 N t) ((deviation I x).w2 N t) = (I.y t - (I.Z t * x + I.D t)) + I.D t := by
+  have h := resimulate_measurement_deviation I hI x hx ht hF
+  simp only [simMeas, if_true, Bool.false_eq_true, if_false, add_zero] at h ⊢
+  rw [h]
+
 /-! ### non-vacuity: a concrete system over ℚ meets the hypotheses -/
 
 section nonvacuous
